@@ -957,3 +957,49 @@ func zzConnStillRunning() {
 	vAssert(s.incoming == 0 && len(s.handlerQueue) == 0 && !s.handlerRunning, "C02.token-returned-exactly-once")
 	vReach("end")
 }
+
+// ---------------------------------------------------------------- thread: Await (the caller's wait for its call)
+//
+// Await returns the call's own outcome once it is complete, or the context's error once the context ends (when both
+// hold, Go's select may take either). It touches nothing else — in particular a handler that awaits a call it made
+// to the peer keeps its place in the dispatch order (C03).
+func zzConnAwait() {
+	rel := &releaser{ch: make(chan struct{})}
+	ctx, cancel := context.WithCancel(context.WithValue(context.Background(), asyncKey, rel))
+	ac := &AsyncCall{id: Int64ID(7), ready: make(chan struct{})}
+	complete := vBool("callComplete")
+	failed := vBool("completedWithError")
+	werr := &WireError{Code: int64(vIntRange("code", -40000, 40000)), Message: "boom"}
+	if complete {
+		if failed {
+			ac.response = &Response{ID: ac.id, Error: werr}
+		} else {
+			ac.response = &Response{ID: ac.id, Result: vJSON("the result")}
+		}
+		close(ac.ready)
+	}
+	gone := vBool("callerContextEnded")
+	if gone {
+		cancel()
+	}
+	vAssume(complete || gone) // otherwise Await legitimately keeps waiting
+	var got string
+	err := ac.Await(ctx, &got)
+	switch {
+	case complete && !gone:
+		if failed {
+			vAssert(err == error(werr), "C01.await.own-error-intact")
+		} else {
+			vAssert(err == nil && got == "the result", "C01.await.own-result-intact")
+		}
+		vReach("completed")
+	case gone && !complete:
+		vAssert(err != nil && errors.Is(err, context.Canceled), "C04.await.returns-with-the-contexts-error")
+		vReach("abandoned")
+	default:
+		vAssert((err != nil && errors.Is(err, context.Canceled)) || (failed && err == error(werr)) || (!failed && err == nil && got == "the result"), "C01.await.one-of-the-two-outcomes")
+	}
+	vAssert(!rel.released && !vIsClosed(rel.ch), "C03.only-the-handler-itself-releases-the-dispatcher")
+	cancel()
+	vReach("end")
+}
